@@ -23,19 +23,20 @@ from harness import c05_lib as L
 from harness import c05_families as FAM
 from harness import extract_rules
 from harness import c05_families2 as FAM2
+from harness import c05_chain as CH
 
 PROP_MODULES = ["OV.Props.C05"]
 
 QUICK_N = {"clipclip": 170, "cliprelu": 70, "reluclip": 90, "relurelu": 6, "minmax": 220, "unit": 220, "dropout": 30, "cast": 110,
            "perm": 120, "axes": 100, "reshape": 260, "slice": 150, "scatter": 90, "gemm": 140, "pad": 170, "normpad": 110,
            "bias": 50, "bn": 110, "expandbin": 240, "misc": 30, "matmul": 200, "hardswish": 120, "convaffine": 70,
-           "dynscatter": 60, "slicesplit": 90, "ccos": 40, "norm": 110}
+           "dynscatter": 60, "slicesplit": 90, "ccos": 40, "norm": 110, "chain": 110}
 
 
 # (family/kind/outcome) combinations every untruncated run must hit: each modelled rule both firing and refusing, and the
 # `raise` paths of the rules that are known to raise on valid hosts.
 REQUIRED_BRANCHES = [
-    "clipclip/-/fire", "clipclip/-/nofire", "clipclip/-/raise", "cliprelu/-/fire", "cliprelu/-/nofire", "reluclip/-/fire", "reluclip/-/nofire",
+    "clipclip/-/fire", "clipclip/-/nofire", "cliprelu/-/fire", "cliprelu/-/nofire", "reluclip/-/fire", "reluclip/-/nofire",
     "relurelu/-/fire",
     "minmax/minMin/fire", "minmax/maxMax/fire", "minmax/maxMin/fire", "minmax/minMax/fire", "minmax/minMax/nofire", "minmax/maxMin/nofire",
     "unit/-/fire", "unit/-/nofire", "dropout/-/fire", "dropout/-/nofire", "misc/rotary1/fire", "misc/rotary2/fire", "misc/gqa/fire", "misc/rotaryP/fire", "misc/rotaryPmis/nofire",
@@ -49,6 +50,17 @@ REQUIRED_BRANCHES = [
     "hardswish/sig/fire", "hardswish/swish/fire", "hardswish/hs2/fire", "hardswish/sig/nofire", "hardswish/hs2/nofire",
     "convaffine/ca/fire", "convaffine/ac/fire", "convaffine/ca/nofire", "convaffine/ac/nofire",
     "dynscatter/-/fire", "dynscatter/-/nofire", "slicesplit/-/fire", "slicesplit/-/nofire", "ccos/-/fire", "misc/layernorm/fire", "norm/ln/fire", "norm/ln/nofire", "norm/lnbias/fire", "norm/rms/fire", "norm/rms/nofire",
+    # rule-set driver on chain hosts: every way of applying the set, two and three interacting rewrites in one sweep, a Min/Max
+    # fusion whose Clip is fused again by a relu/clip rule, a shared intermediate inside a fusable run, the second call
+    "chain/order/fire", "chain/order/nofire", "chain/shuf/fire", "chain/default/fire", "chain/entry/fire",
+    "chain/+n>=2/fire", "chain/+n>=3/fire", "chain/+minmax_then_reluclip/fire", "chain/+shared_inside/fire", "chain/+second_call/fire",
+    # history (`pre`: the same rule object used on another host first) and the shipped default rule set as the thing applied
+    "reshape/+history/fire", "reshape/+rr_opset13/fire", "reshape/+rr_opset13_after_az1_zero_kept/fire", "reshape/+default_set/fire",
+    "ccos/+default_set/fire",
+    # c0ccb25: element type of the first Clip unknown -> no fire; known through a constant bound -> fire (no `raise` any more)
+    "clipclip/+untyped_input_no_bound/nofire", "clipclip/+untyped_input_const_bound/fire", "clipclip/+typed_input/fire",
+    "cliprelu/+untyped_input_no_bound/nofire", "cliprelu/+untyped_input_const_bound/fire", "cliprelu/+typed_input/fire",
+    "reluclip/+untyped_input_no_bound/nofire", "reluclip/+untyped_input_const_bound/fire", "reluclip/+typed_input/fire",
 ]
 
 
@@ -68,7 +80,22 @@ def condition_token_diff() -> dict:
 
 
 def families():
-    return {f.name: f for f in FAM.all_families() + FAM2.more_families()}
+    return {f.name: f for f in FAM.all_families() + FAM2.more_families() + [CH.ChainFam()]}
+
+
+def decorate(f, c, rng):
+    """History and rule-set dimensions of a generated case (both recorded in the case, so replays are self-contained):
+    `pre`  — hosts the same rule objects are applied to first (family-specific `gen_pre` aims at the *other* branch of the
+             rule's check; default: another generated case of the family);
+    `dflt` — additionally push the host through `RewriteRuleSet(_DEFAULT_REWRITE_RULES)` and judge that result."""
+    if getattr(f, "no_model", False) or f.name in ("chain",):
+        return
+    if rng.random() < (f.p_pre_for(c) if hasattr(f, "p_pre_for") else getattr(f, "p_pre", 0.10)):
+        pre = f.gen_pre(rng, c) if hasattr(f, "gen_pre") else f.gen(rng)
+        pre.pop("pre", None)
+        c["pre"] = [pre]
+    if rng.random() < getattr(f, "p_dflt", 0.12):
+        c["dflt"] = 1
 
 
 def split_hyp(s: str):
@@ -89,6 +116,12 @@ EXTRA_NOFIRE = {"clipclip", "cliprelu", "reluclip", "relurelu", "minmax", "castc
 def evaluate(fam, case, drv_answer: str, np_rng, n_inputs: int = 5) -> dict:
     """Run the real rule on the host, compare with the model's answer, run the oracle when the rule fired."""
     rec = {"case": case, "fam": fam.name}
+    # every case starts from pristine rule objects; history enters only through the case's own `pre` list: hosts on which the
+    # same (singleton) rule objects are applied first, results discarded
+    L.rule_state().restore()
+    for pc in case.get("pre") or []:
+        ph, prules = fam.build(pc)
+        L.apply_rules(prules, ph.model(infer=fam.infer(pc) if hasattr(fam, "infer") else True))
     hst, rules = fam.build(case)
     infer = fam.infer(case) if hasattr(fam, "infer") else True
     before = hst.model(infer=infer)
@@ -128,6 +161,24 @@ def evaluate(fam, case, drv_answer: str, np_rng, n_inputs: int = 5) -> dict:
                 ca = L.checker_status(after)
                 if ca is not None:
                     rec["checker"] = ca
+    if case.get("dflt"):
+        # the same host through the shipped default rule set (its rule objects, its order, every other default rule consulted):
+        # judged by the oracle and the checker only
+        resd, afterd = L.apply_rules(L.default_ruleset(), before)
+        rec["dflt"] = "raise" if isinstance(resd, str) else ("nofire" if resd == 0 else "fire")
+        if rec["dflt"] == "fire":
+            feeds = [hst.make_feeds(np_rng) for _ in range(getattr(fam, "n_inputs", n_inputs))]
+            prefer = fam.prefer_for(case) if hasattr(fam, "prefer_for") else getattr(fam, "prefer", "ort")
+            status, detail = L.oracle(before, afterd, feeds, exact=fam.exact, prefer=prefer, tol=(fam.tol_for(case) if hasattr(fam, "tol_for") else getattr(fam, "tol", None)))
+            if status == "before_invalid" and hasattr(fam, "post_check") and rec["impl"].startswith("fire"):
+                status, detail = "same", "post_check domain"
+            rec["dflt_oracle"] = status
+            if status in ("differ", "after_error"):
+                rec["dflt_bad"] = f"[through RewriteRuleSet(_DEFAULT_REWRITE_RULES), {resd} rewrites] {detail}"
+            elif status == "same" and L.checker_status(before) is None:
+                ca = L.checker_status(afterd)
+                if ca is not None:
+                    rec["dflt_bad"] = f"[through RewriteRuleSet(_DEFAULT_REWRITE_RULES), {resd} rewrites] rewritten model rejected by onnx.checker: {ca}"
     return rec
 
 
@@ -136,6 +187,9 @@ def judge(rec) -> tuple[str, str]:
     fam, c = rec["fam"], rec["case"]
     tie_text = f"model says `{rec['model']}`, implementation `{rec['impl']}`" + (f" ({rec.get('raise')})" if rec.get("raise") else "")
     inside = rec["fid"] is not None
+    if rec.get("dflt_bad") and not (rec["impl"].startswith("fire") and (rec["oracle"] in ("differ", "after_error") or "checker" in rec)):
+        # only the default-set application breaks the host (e.g. another rule of the set wins at this node)
+        return ("known" if inside else "prop"), rec["dflt_bad"]
     bad = rec["impl"].startswith("fire") and (rec["oracle"] in ("differ", "after_error") or "checker" in rec)
     what = ""
     if bad:
@@ -173,6 +227,13 @@ def run_cases(run, drv, fams, cases, stats, np_rng, results):
         stats[f"{fam.name}:cases"] += 1
         stats[f"{fam.name}:{rec['impl'].split()[0]}"] += 1
         stats[f"branch|{fam.name}/{c.get('kind', '-')}/{rec['impl'].split()[0]}"] += 1
+        if rec.get("dflt"):
+            stats[f"branch|{fam.name}/+default_set/{rec['dflt']}"] += 1
+        if c.get("pre"):
+            stats[f"branch|{fam.name}/+history/{rec['impl'].split()[0]}"] += 1
+        if hasattr(fam, "counters"):
+            for k in fam.counters(c, rec):
+                stats[f"branch|{fam.name}/+{k}/{rec['impl'].split()[0]}"] += 1
         if rec["oracle"]:
             stats[f"{fam.name}:oracle_{rec['oracle']}"] += 1
         if rec["hyp"] is False:
@@ -194,6 +255,7 @@ def main(run: core.Run) -> None:
     table = extract_rules.regenerate()
     run.coverage["rule_table"] = {"rows": len(table["rows"]), "default": len(table["default"]), "exported": len(table["exported"]),
                                   "regenerated_changed": table["changed"]}
+    L.rule_state()          # snapshot of the pristine rule objects, before any rule is applied in this process
     audit = run.prove(PROP_MODULES)
     cond_changed = condition_token_diff()
     run.coverage["condition_functions_changed"] = sorted(cond_changed)
@@ -249,6 +311,7 @@ def main(run: core.Run) -> None:
             if key in seen:
                 continue
             seen.add(key)
+            decorate(f, c, run.rng)
             cases.append(c)
             got += 1
     # corpus first; the generated cases in a seeded shuffle so that a time cut-off is spread over all families
@@ -308,6 +371,7 @@ def main(run: core.Run) -> None:
             if time.time() - t_search > run.size(20, 240):
                 break
             c = fam.gen(run.rng)
+            decorate(fam, c, run.rng)
             ln = fam.line(c)
             ans = "-" if (ln is None or getattr(fam, "no_model", False)) else drv.ask([ln])[0]
             rr = evaluate(fam, c, ans, np_rng)
@@ -325,6 +389,9 @@ def main(run: core.Run) -> None:
             run.violation({"case": r["case"], "line": r["line"], "detail": r["text"], "broken": f"correspondence OV.Model.C05 ({r['fam']}) vs implementation",
                            "others": len(ties) - 1},
                           f"correspondence broken: {r['line']} :: {r['text']}; no input found on which the rewritten model differs", no_input=True)
+    if not CH.order_check():
+        run.violation({"broken": "order of the min/max and relu/clip rules inside _DEFAULT_REWRITE_RULES differs from Chain.chainRules"},
+                      "the eight order rules are no longer in the modelled order inside _DEFAULT_REWRITE_RULES (OV.Model.C05Chain.chainRules)", no_input=True)
     if not audit["ok"]:
         extra = ""
         if cond_changed:
@@ -357,6 +424,8 @@ def main(run: core.Run) -> None:
         explanation="rule set enumeration is exhaustive (translator); parameters per rule are seeded random over the listed spaces",
         fired_but_original_not_runnable=inv,
     )
+    run.coverage["history_cases"] = sum(1 for r in results if r["case"].get("pre"))
+    run.coverage["default_rule_set_cases"] = dict(Counter(r["dflt"] for r in results if r.get("dflt")))
     run.coverage["branches"] = {k.split("|", 1)[1]: v for k, v in sorted(stats.items()) if k.startswith("branch|")}
     truncated = bool(stats.get("truncated_after"))
     run.coverage["truncated_after"] = stats.get("truncated_after")
